@@ -41,4 +41,17 @@ def showIntMat (m : List (List Int)) : String :=
 def showRatMat (m : List (List Rat)) : String :=
   if m.isEmpty then "-" else join (m.map showRats) ";"
 
+/-- generic request loop: one request per line on stdin, one answer per line on stdout -/
+partial def loop (answer : List String → String) (h out : IO.FS.Stream) : IO Unit := do
+  let line ← h.getLine
+  if line.isEmpty then return ()
+  let toks := (line.trimAscii.toString.splitOn " ").filter (· ≠ "")
+  out.putStrLn (answer toks)
+  loop answer h out
+
+def runDriver (answer : List String → String) : IO Unit := do
+  let out ← IO.getStdout
+  loop answer (← IO.getStdin) out
+  out.flush
+
 end Pyunicorn.Proto
